@@ -688,3 +688,92 @@ func fromFuncField(v ssa.Value) bool {
 	}
 	return false
 }
+
+// R-LOOPBLOCK (C06 "no thread schedule can leave a caller waiting for a result that has been or will be delivered"): one
+// goroutine reads the connection for all runs. While it waits for anything else than the next message, no run on the
+// connection gets its result. Every channel operation in the functions the read loop runs synchronously is an
+// obligation: it must not be able to wait for somebody outside the client - a select needs a default case, or every
+// channel it sends on is made by the client itself with room for the message; a receive waits only for what the client
+// itself sends. A blocking send on a channel the *caller* supplied (the emitted-signals channel of a run) waits for the
+// caller: if the caller is busy - inside another Execute, waiting for this very read loop - everything waits.
+func (c *Ctx) ruleLoopBlock(rule string) {
+	ro := c.roles()
+	if !ro.ok || ro.readLoop == nil {
+		c.R.Unresolved(rule, "the client's read loop")
+		return
+	}
+	n := 0
+	for _, fn := range c.M.SortedFuncs(c.reachSync(ro.readLoop)) {
+		if fn.Pkg == nil || fn.Pkg != ro.readLoop.Pkg {
+			continue
+		}
+		cnt := 0
+		for _, b := range fn.Blocks {
+			for _, in := range b.Instrs {
+				var what string
+				var chans []ssa.Value
+				blocking := false
+				switch x := in.(type) {
+				case *ssa.Send:
+					what, chans, blocking = "send", []ssa.Value{x.Chan}, true
+				case *ssa.Select:
+					for _, st := range x.States {
+						if st.Dir == types.SendOnly {
+							chans = append(chans, st.Chan)
+						}
+					}
+					what, blocking = "select", x.Blocking
+					if len(chans) == 0 {
+						continue // only receives: waits for what the client itself signals (cancellation)
+					}
+				default:
+					continue
+				}
+				n++
+				cnt++
+				k := key(rule, c.M.Key(fn), sprintf("%s #%d in the read loop cannot wait for a receiver outside the client", what, cnt))
+				if !blocking {
+					c.R.Ok(rule, k, c.M.InstrPos(in), "channel operation in the goroutine that reads for all runs", "the select has a default case")
+					continue
+				}
+				foreign := ""
+				for _, ch := range chans {
+					if !madeByClient(ch) {
+						foreign = c.stable(fn, c.M.ValPath(ch))
+					}
+				}
+				if foreign == "" {
+					c.R.Ok(rule, k, c.M.InstrPos(in), "channel operation in the goroutine that reads for all runs", "every channel sent on is made by the client itself")
+				} else {
+					c.R.Bad(rule, k, c.M.InstrPos(in), "the read loop waits, without a default case, for a receiver the caller controls",
+						"the channel "+foreign+" was supplied by a caller of Execute: until that caller receives (or Close cancels), the one goroutine that reads the connection reads nothing, and no run gets its result - a caller that reacts to a signal by calling Execute waits for the read loop, which waits for the caller")
+				}
+			}
+		}
+	}
+	if n == 0 {
+		c.R.Unresolved(rule, "channel sends in the functions the read loop runs")
+	}
+}
+
+// madeByClient: the channel value is the result of a make in the same function (possibly through a local).
+func madeByClient(ch ssa.Value) bool {
+	switch x := ch.(type) {
+	case *ssa.MakeChan:
+		return true
+	case *ssa.UnOp:
+		if al, ok := x.X.(*ssa.Alloc); ok {
+			for _, r := range *al.Referrers() {
+				if st, ok := r.(*ssa.Store); ok && st.Addr == ssa.Value(al) {
+					if _, isMake := st.Val.(*ssa.MakeChan); !isMake {
+						return false
+					}
+				}
+			}
+			return true
+		}
+	case *ssa.ChangeType:
+		return madeByClient(x.X)
+	}
+	return false
+}
